@@ -11,6 +11,9 @@ type Var struct {
 	Pointer bool
 	// External indicates whether the Type is defined in an external package.
 	External bool
+	// Variadic indicates that the variable is the variadic parameter of the function
+	// ("xs ...T"); Type is the slice type []T that the variable has in the function body.
+	Variadic bool
 }
 
 // FullType creates a complete type expression string that can be used for var declaration.
